@@ -299,6 +299,9 @@ func (e *Env) havocModifies(it *Item, ctx *SpecCtx, st *State) {
 		return
 	}
 	allocMay := false
+	// the locations named by the modifies clauses are those of the pre-call state (e.g.
+	// `s.items, s.items[*]`: the elements of the slice as it was, not of its havocked header)
+	pre := ctx.inState(st.clone())
 	for _, c := range it.Clauses {
 		if c.Kind != "modifies" {
 			continue
@@ -308,7 +311,7 @@ func (e *Env) havocModifies(it *Item, ctx *SpecCtx, st *State) {
 				allocMay = true
 				continue
 			}
-			e.havocLoc(ctx, x, st)
+			e.havocLoc(pre, x, st)
 		}
 	}
 	if allocMay || it.Opts["allocates"] != "" {
